@@ -160,11 +160,25 @@ pub struct RecCollect {
     /// before it asks the collector anything): until then it rejects everything and hints OFF
     pub late_init: bool,
     inited: AtomicBool,
+    /// reentrancy: when the collector itself is dropped (its last `Dispatch` went away) it emits one farewell event
+    /// at this pool site, carrying `7_000_000 + k` (-1: it does not)
+    pub emit_on_drop: i64,
+}
+
+impl Drop for RecCollect {
+    fn drop(&mut self) {
+        if self.emit_on_drop >= 0 {
+            crate::fw::fault("collector_emits_from_its_destructor");
+            sites::emit_event(self.emit_on_drop as usize, 7_000_000 + self.k as u64);
+        }
+    }
 }
 
 thread_local! {
     /// fault injection: the next `event`/`new_span` callback on this thread panics (after it has been logged)
     pub static PANIC_NEXT_CALLBACK: std::cell::Cell<bool> = std::cell::Cell::new(false);
+    /// fault injection: the next `register_callsite` on this thread panics (after it has been logged)
+    pub static PANIC_NEXT_REGISTER: std::cell::Cell<bool> = std::cell::Cell::new(false);
     static STACKS: RefCell<HashMap<usize, Vec<(u64, &'static Metadata<'static>)>>> = RefCell::new(HashMap::new());
 }
 
@@ -204,13 +218,17 @@ impl tracing_core::field::Visit for ValVisitor {
 
 impl RecCollect {
     pub fn new(k: usize, filter: FilterSpec) -> Self {
-        RecCollect { k, filter, flipped: AtomicBool::new(false), next_id: AtomicU64::new(1 + k as u64 * 1_000_000), self_check: true, metas: Mutex::new(HashMap::new()), handle_ids: false, aliases: Mutex::new(HashMap::new()), late_init: false, inited: AtomicBool::new(false) }
+        RecCollect { k, filter, flipped: AtomicBool::new(false), next_id: AtomicU64::new(1 + k as u64 * 1_000_000), self_check: true, metas: Mutex::new(HashMap::new()), handle_ids: false, aliases: Mutex::new(HashMap::new()), late_init: false, inited: AtomicBool::new(false), emit_on_drop: -1 }
     }
     fn log(&self, kind: &'static str, meta: Option<&Metadata<'_>>, id: u64, id2: u64, val: u64, flag: bool) {
         let (site, skind, name) = meta.map(site_of).unwrap_or((-1, 9, ""));
         let r = Rec { stamp: detsim::stamp(), thread: detsim::current(), k: self.k, kind, site, skind, name, id, id2, val, flag };
         ev(format!("c{} t{} {} s{} k{} id{} {} v{} {}", r.k, r.thread, kind, site, skind, id, id2, val, flag));
         LOG.lock().unwrap().push(r);
+    }
+    pub fn with_emit_on_drop(mut self, site: usize) -> Self {
+        self.emit_on_drop = site as i64;
+        self
     }
     pub fn with_late_init(mut self) -> Self {
         self.late_init = true;
@@ -255,6 +273,10 @@ impl Collect for RecCollect {
             }
         };
         self.log("register_callsite", Some(meta), 0, 0, if i.is_always() { 2 } else if i.is_sometimes() { 1 } else { 0 }, true);
+        if PANIC_NEXT_REGISTER.with(|c| c.replace(false)) {
+            crate::fw::fault("panic_in_register_callsite");
+            panic!("injected panic inside Collect::register_callsite");
+        }
         i
     }
     fn enabled(&self, meta: &Metadata<'_>) -> bool {
@@ -276,7 +298,8 @@ impl Collect for RecCollect {
         let parent = if attrs.is_root() {
             0
         } else if attrs.is_contextual() {
-            STACKS.with(|s| s.borrow().get(&self.k).and_then(|v| v.last().map(|x| x.0)).unwrap_or(0))
+            // (`try_with`: a callback may run from a thread-local destructor, after this thread-local is gone)
+            STACKS.try_with(|s| s.borrow().get(&self.k).and_then(|v| v.last().map(|x| x.0)).unwrap_or(0)).unwrap_or(0)
         } else {
             attrs.parent().map(|p| p.into_u64()).unwrap_or(0)
         };
@@ -301,7 +324,8 @@ impl Collect for RecCollect {
         let parent = if event.is_root() {
             0
         } else if event.is_contextual() {
-            STACKS.with(|s| s.borrow().get(&self.k).and_then(|v| v.last().map(|x| x.0)).unwrap_or(0))
+            // (`try_with`: a callback may run from a thread-local destructor, after this thread-local is gone)
+            STACKS.try_with(|s| s.borrow().get(&self.k).and_then(|v| v.last().map(|x| x.0)).unwrap_or(0)).unwrap_or(0)
         } else {
             event.parent().map(|p| p.into_u64()).unwrap_or(0)
         };
@@ -314,11 +338,11 @@ impl Collect for RecCollect {
     fn enter(&self, span: &Id) {
         // metadata is not available here; the stack keeps ids only (metadata slot unused)
         let meta = self.metas.lock().unwrap().get(&self.root(span.into_u64())).copied().unwrap_or(&NULL_META);
-        STACKS.with(|s| s.borrow_mut().entry(self.k).or_default().push((span.into_u64(), meta)));
+        let _ = STACKS.try_with(|s| s.borrow_mut().entry(self.k).or_default().push((span.into_u64(), meta)));
         self.log("enter", None, span.into_u64(), 0, 0, true);
     }
     fn exit(&self, span: &Id) {
-        STACKS.with(|s| {
+        let _ = STACKS.try_with(|s| {
             if let Some(v) = s.borrow_mut().get_mut(&self.k) {
                 if let Some(pos) = v.iter().rposition(|x| x.0 == span.into_u64()) {
                     v.remove(pos);
@@ -343,7 +367,7 @@ impl Collect for RecCollect {
         false
     }
     fn current_span(&self) -> Current {
-        let top = STACKS.with(|s| s.borrow().get(&self.k).and_then(|v| v.last().copied()));
+        let top = STACKS.try_with(|s| s.borrow().get(&self.k).and_then(|v| v.last().copied())).ok().flatten();
         match top {
             Some((id, meta)) => Current::new(Id::from_u64(id), meta),
             None => Current::none(),
